@@ -183,9 +183,10 @@ def split_json_raw(spec: dict, stream: bytes) -> tuple[list[tuple], int]:
             if end < 0:
                 return out, pos
             seplen = 0
-        elif c in b"]}":
-            # a stray closing bracket where a document should start: a one-byte malformed document (it cannot be shorter,
-            # and taking more would eat into whatever follows)
+        elif c in b"]}" or c not in _JSON_PLAIN:
+            # a stray closing bracket, or a byte that cannot be part of any JSON text outside a string (control character,
+            # non-ASCII), where a document should start: a one-byte malformed document (it cannot be shorter, and taking
+            # more would eat into whatever follows)
             end = i + 1
             seplen = 0
         else:
